@@ -46,7 +46,7 @@ MUTATORS = [
 def cases(draw):
     avoid = c01.current_avoid()
     p = draw(gen.programs({"features": set(gen.FEATURES) - {"faults"}, "avoid": avoid, "max_fns": 3, "max_types": 3, "max_stmts": 6}))
-    mut = draw(st.integers(-1, len(MUTATORS) - 1))
+    mut = -1 if draw(st.integers(0, 3)) == 0 else draw(st.sampled_from(list(range(len(MUTATORS)))))
     return {"src": program_src(p), "mutator": mut}
 
 
